@@ -315,7 +315,21 @@ impl ASN1Type {
     ) -> Result<(), GrammarError> {
         match self {
             ASN1Type::ChoiceSelectionType(c) => {
-                if let Some(ToplevelDefinition::Type(parent)) = tlds.get(&c.choice_name) {
+                // the CHOICE may be referred to through type aliases
+                let mut parent = tlds.get(&c.choice_name);
+                let mut hops = 0;
+                while let Some(ToplevelDefinition::Type(ToplevelTypeDefinition {
+                    ty: ASN1Type::ElsewhereDeclaredType(alias),
+                    ..
+                })) = parent
+                {
+                    if hops > tlds.len() {
+                        break;
+                    }
+                    hops += 1;
+                    parent = tlds.get(&alias.identifier);
+                }
+                if let Some(ToplevelDefinition::Type(parent)) = parent {
                     // X.680 30.1: the selection type denotes the type of the selected alternative
                     let selected = match &parent.ty {
                         ASN1Type::Choice(choice) => choice
